@@ -1191,7 +1191,7 @@ func main() {
 			Vars:  map[string]int{"connState": 4, "wswrite": 5, "wsread": 6, "listenGate": 7, "closeGate": 8},
 			GateCalls: map[string]string{"Listen:hasConnState(ConnStateListening)": "listenGate",
 				"Listen:setConnState(ConnStateListening)": "listenGate",
-				"CloseWithMsg:Closed()": "closeGate", "CloseWithMsg:unsetConnState(ConnStateOpen)": "closeGate"},
+				"CloseWithMsg:Closed()":                   "closeGate", "CloseWithMsg:unsetConnState(ConnStateOpen)": "closeGate"},
 			Fields: map[string]string{"connState": "connState"},
 			// every method of the underlying websocket connection that writes frames / reads frames
 			WireOps: map[string]string{"WriteMessage": "wswrite", "NextWriter": "wswrite", "WriteControl": "wswrite",
@@ -1208,6 +1208,10 @@ func main() {
 	}
 	body.WriteString("end FV.Gen\n")
 	if err := os.WriteFile(filepath.Join(out, "Sync.lean"), []byte(body.String()), 0o644); err != nil {
+		fmt.Fprintln(os.Stderr, err)
+		os.Exit(1)
+	}
+	if err := os.WriteFile(filepath.Join(out, "WsClient.lean"), []byte(wsClientSkeletons(repo)), 0o644); err != nil {
 		fmt.Fprintln(os.Stderr, err)
 		os.Exit(1)
 	}
